@@ -312,6 +312,18 @@ def fast_reconnect_family():
     ]
 
 
+def reload_race_family():
+    """(D23) a stream goroutine has just taken a watch response when reload takes c.lock: reload must complete, the lock be
+    released and the view converge (the driver forces the interleaving; with the lock held across watchGroup.Wait() this hangs)."""
+    H = lambda ev, pf=None: dict({"kind": "hist", "prefix": (pf or ["svc"])[0], "events": ev}, **({"prefixes": pf} if pf else {}))
+    RR = {"t": "reload_race"}
+    return [
+        H([SUB(), P("svc/1", "a"), D("svc/1", False), RR, P("svc/2", "b")]),
+        H([SUB(), SUB(True), P("svc/1", "a"), P("svc/2", "a", False), RR, D("svc/1"), RR, D("svc/2", False), RL]),
+        H([SUB(p=0), SUB(p=1), P("svc/1", "a"), P("k/1", "b", False), RR, D("k/1"), P("svc/2", "c", False), RR], ["svc", "k"]),
+    ]
+
+
 def batch_family():
     """(r4-3) one watch response carrying several events."""
     B = lambda *items: {"t": "batch", "items": [({"t": "put", "k": k, "v": v} if v else {"t": "del", "k": k}) for k, v in items]}
@@ -476,7 +488,7 @@ def resolver_family():
 
 def generate(rng, tier, n):
     cases = (list(directed()) + resolver_family() + late_join_family() + duplicate_family() +
-             publisher_family() + multi_prefix_family() + batch_family() + failing_get_family() + cancel_family() + real_family() + fast_reconnect_family())
+             publisher_family() + multi_prefix_family() + batch_family() + failing_get_family() + cancel_family() + real_family() + fast_reconnect_family() + reload_race_family())
     nres = max(6, n // 12)
     for _ in range(nres):
         cases.append(_res(rng))
@@ -496,7 +508,7 @@ def generate(rng, tier, n):
 
 def search(rng, problems):
     out = (list(directed()) + resolver_family() + late_join_family() + duplicate_family() +
-           publisher_family() + multi_prefix_family() + batch_family() + failing_get_family() + cancel_family() + real_family() + fast_reconnect_family())
+           publisher_family() + multi_prefix_family() + batch_family() + failing_get_family() + cancel_family() + real_family() + fast_reconnect_family() + reload_race_family())
     out += [_res(rng) for _ in range(20)] + [_pub(rng) for _ in range(20)]
     for _ in range(60):
         out.append(_hist(rng, n_events=rng.randint(4, 10)))
@@ -539,7 +551,7 @@ def _projections(case, ho):
             elif ev["t"] == "sub" and ev.get("p", 0) != pi:
                 continue
             elif ev["t"] == "reload_race":
-                # probe (never generated): a reload forced to take c.lock while a stream goroutine has just taken a response
+                # a reload forced to take c.lock while a stream goroutine has just taken a response
                 out_ev = {"t": "reload"}
             elif ev["t"] == "cancel":
                 # the server cancels the newest stream of one prefix; held: the replacement comes at cancel_end
